@@ -132,7 +132,11 @@ def rule_pubfields(text, ctx, where):
             n += 1
         out.append(seg)
     out.append(text[e:])
-    return "".join(out), n
+    res = "".join(out)
+    if not re.match(r"\s*pub\b", res):
+        res = "pub " + res.lstrip()
+        n += 1
+    return res, n
 
 
 def rule_fmtmsg(text, ctx, where):
@@ -251,7 +255,60 @@ def rule_opt_map_or(text, ctx, where):
     return text, n
 
 
-RULES = {"iter_any": rule_iter_any, "opt_map_or": rule_opt_map_or, "mutself": rule_mutself, "fmtmsg": rule_fmtmsg, "pubfields": rule_pubfields, "T": rule_T, "attrs": rule_attrs, "cell": rule_cell}
+def rule_map_err_q(text, ctx, where):
+    """`EXPR.map_err(|e| BODY)?`  ->  `(match EXPR { Ok(__v) => __v, Err(e) => { return Err(BODY); } })`
+    (the standard desugaring of `?` after `map_err`; From conversion is the identity here)"""
+    n = 0
+    while True:
+        m = mask(text)
+        mt = re.search(r"\s*\.map_err\(", m)
+        if not mt:
+            break
+        b = mt.end() - 1
+        e = match_delim(m, b)
+        if m[e + 1:e + 2] != "?":
+            raise AnchorLost(f"{where}: map_err not followed by `?`")
+        # receiver: back to the start of the expression: previous `=` or `;` or `{` at depth 0
+        j = mt.start()
+        depth = 0
+        while j > 0:
+            c = m[j - 1]
+            if c in ")]}":
+                depth += 1
+            elif c in "([{":
+                if depth == 0:
+                    break
+                depth -= 1
+            elif c in "=;" and depth == 0:
+                break
+            j -= 1
+        recv = text[j:mt.start()].strip()
+        pat, body = _split_closure(text[b + 1:e])
+        rep = f" (match {recv} {{ Ok(__v) => __v, Err({pat}) => {{ return Err({body}); }} }})"
+        text = text[:j] + rep + text[e + 2:]
+        n += 1
+    return text, n
+
+
+def rule_for_index(text, ctx, where):
+    """`for X in PLACE {`  ->  `let mut __fk = 0; while __fk < PLACE.len() { let X = &PLACE[__fk]; __fk += 1;`
+    where PLACE is a plain identifier path naming a slice/Vec reference (iteration by shared reference, in order).
+    `continue` keeps its meaning because the index is advanced at the top of the body."""
+    n = 0
+    while True:
+        m = mask(text)
+        mt = re.search(r"\bfor\s+([A-Za-z_]\w*)\s+in\s+&?([A-Za-z_][\w\.]*)\s*\{", m)
+        if not mt:
+            break
+        x, place = mt.group(1), mt.group(2)
+        k = f"__fk{n}"
+        rep = f"let mut {k}: usize = 0; while {k} < {place}.len() {{ let {x} = &{place}[{k}]; {k} += 1;"
+        text = text[:mt.start()] + rep + text[mt.end():]
+        n += 1
+    return text, n
+
+
+RULES = {"for_index": rule_for_index, "map_err_q": rule_map_err_q, "iter_any": rule_iter_any, "opt_map_or": rule_opt_map_or, "mutself": rule_mutself, "fmtmsg": rule_fmtmsg, "pubfields": rule_pubfields, "T": rule_T, "attrs": rule_attrs, "cell": rule_cell}
 
 
 def apply_rules(text, rules, ctx, counts, where):
